@@ -55,6 +55,9 @@ META = {
         "one template reused for a series of placements); checked on the real code by search_purity with a replayable "
         "history per failure; quatfit.jacobi is exempt (in-place by design on the matrix qtrfit builds afresh). The "
         "bit-exact correspondence itself uses fresh argument objects for every call. "
+        "SEARCH additions: rotation routines (qchichange, Debump.set_dihedral_angle, Residue.rotate_tetrahedral) are run at boundary "
+        "angles (all quarter turns of both signs, +-1e-9 around them, tiny, huge) and judged by the property only; a correspondence "
+        "disagreement whose case violates the property under the independent oracle is reported as a failing input with its own replay. "
         "STILL NOT PROVED (validated oracle / measured): convergence (that the off-diagonal mass reaches the "
         "threshold within the 30 sweeps), the effect of the non-zero threshold 1e-12 on the returned eigenvector "
         "(known finding C15-F1 lives exactly there: gap-dependent), and all rounding (1e-6 A, 0.05 degrees). These "
@@ -163,6 +166,10 @@ def same_bits(a, b):
     if a != a or b != b:
         return a != a and b != b
     return a.hex() == b.hex()
+
+
+def json_key(d):
+    return tuple(sorted((str(k), str(v)) for k, v in d.items()))
 
 
 def fresh(x):
@@ -1412,6 +1419,228 @@ def search_purity(ctx, qf, rounds):
                         )
 
 
+
+# --------------------------------------------------------------------------
+# search 3: rotation routines at BOUNDARY angles, judged by the property only
+# (qchichange, Debump.set_dihedral_angle, Residue.rotate_tetrahedral)
+
+BOUNDARY_BASE = [0.0, 90.0, 180.0, 270.0, 360.0, 450.0, 720.0]
+
+
+def boundary_angles(rng):
+    """One angle from the boundary set (both signs, +-1e-9 around the quarter turns) or at random."""
+    r = rng.random()
+    if r < 0.45:
+        a = rng.choice(BOUNDARY_BASE) * rng.choice([1.0, -1.0])
+        return a + rng.choice([0.0, 0.0, 0.0, 1e-9, -1e-9])
+    if r < 0.7:
+        return rng.choice([5.0, -5.0, 120.0, -120.0, 1e-300, -1e-300, 1e6 + 45, -(1e6 + 45), 1e-9, -1e-9, 60.0, -60.0, 179.99, -179.99])
+    if r < 0.8:
+        return 90.0 * rng.randint(-12, 12)
+    return rng.uniform(-720, 720)
+
+
+def angle_class(a):
+    """Stable classification of a rotation angle (degrees) for signatures / coverage."""
+    a = float(a)
+    if a == 0.0:
+        return "zero"
+    sign = "negative" if a < 0 else "positive"
+    if abs(a) < 1e-100:
+        return f"{sign}-tiny"
+    if abs(a) >= 1e5:
+        return f"{sign}-huge"
+    if math.fmod(a, 90.0) == 0.0:
+        k = int(round(abs(a) / 90.0))
+        return f"{sign}-odd-quarter-turn" if k % 2 else f"{sign}-multiple-of-180"
+    if abs(a / 90.0 - round(a / 90.0)) * 90.0 <= 1e-6:
+        return f"{sign}-near-quarter-turn"
+    return "generic"
+
+
+def judge_rotation(site, pa, pb, moved0, moved1, angle=None, torsion_ref=None, want=None, unmoved=()):
+    """Property-only judgement of a rotation about the axis pa -> pb.
+    moved0 / moved1: coordinates of the moved set before / after; angle: the rotation asked for (each moved
+    atom's torsion about pa->pb relative to a fixed reference must advance by it, mod 360); want + torsion_ref:
+    instead the absolute torsion (torsion_ref, pa, pb, moved[0]) must equal want (mod 360);
+    unmoved: (name, before, after) triples that must be bit-identical.  Returns (condition, message) or None."""
+    pa, pb = np.asarray(pa, float), np.asarray(pb, float)
+    m0 = [np.asarray(x, float) for x in moved0]
+    m1 = [np.asarray(x, float) for x in moved1]
+    for name, b0, b1 in unmoved:
+        if not all(float(x).hex() == float(y).hex() for x, y in zip(b0, b1)):
+            return "unmoved-atom-changed", f"atom {name} outside the moved set changed"
+    if not all(np.all(np.isfinite(x)) for x in m1):
+        return "non-finite", "non-finite coordinates"
+    # rigid: all pair distances inside the moved set and to both axis atoms
+    for i in range(len(m0)):
+        for lab, ax in (("axis atom 1", pa), ("axis atom 2", pb)):
+            d0, d1 = float(np.linalg.norm(m0[i] - ax)), float(np.linalg.norm(m1[i] - ax))
+            if abs(d0 - d1) > TOL_POS:
+                return "not-rigid", f"distance of moved atom {i} to {lab} changed {d0!r} -> {d1!r}"
+        for j in range(i + 1, len(m0)):
+            d0, d1 = float(np.linalg.norm(m0[i] - m0[j])), float(np.linalg.norm(m1[i] - m1[j]))
+            if abs(d0 - d1) > TOL_POS:
+                return "not-rigid", f"distance between moved atoms {i} and {j} changed {d0!r} -> {d1!r}"
+    # handedness: signed volume spanned from the first axis atom
+    if len(m0) >= 3:
+        v0 = float(np.dot(np.cross(m0[0] - pa, m0[1] - pa), m0[2] - pa))
+        v1 = float(np.dot(np.cross(m1[0] - pa, m1[1] - pa), m1[2] - pa))
+        if abs(v0) > 1e-3 and abs(v0 - v1) > 1e-5 * max(1.0, abs(v0)):
+            return "handedness", f"signed volume of the moved set {v0!r} -> {v1!r}"
+    # torsion
+    e = unit(pb - pa)
+    if want is not None:
+        meas = independent_dihedral(torsion_ref, pa, pb, m1[0])
+        if angdiff(meas, want) > TOL_TORS:
+            return "torsion-not-reproduced", f"requested torsion {want!r}, measured {meas:.6f} (before {independent_dihedral(torsion_ref, pa, pb, m0[0]):.6f})"
+    if angle is not None:
+        # a reference point off the axis, fixed in space
+        t = np.cross(e, [1.0, 0.0, 0.0]) if abs(e[0]) < 0.9 else np.cross(e, [0.0, 1.0, 0.0])
+        ref = pa + unit(t)
+        for i in range(len(m0)):
+            rho = np.linalg.norm((m0[i] - pa) - np.dot(m0[i] - pa, e) * e)
+            if rho < 0.1:
+                continue
+            delta = independent_dihedral(ref, pa, pb, m1[i]) - independent_dihedral(ref, pa, pb, m0[i])
+            if angdiff(delta, angle) > TOL_TORS:
+                return "torsion-not-reproduced", f"rotation by {angle!r} degrees asked, torsion of moved atom {i} about the axis advanced by {delta % 360.0:.6f} (mod 360)"
+    return None
+
+
+def run_rotation_case(case, qf, util):
+    """Execute one boundary case on the real code and judge it. Returns (site, verdict)."""
+    from pdb2pqr.debump import Debump
+    from pdb2pqr.residue import Residue
+
+    kind = case["routine"]
+    if kind == "qchichange":
+        init, coords, angle = case["init"], case["coords"], case["angle"]
+        with np.errstate(all="ignore"):
+            out = qf.qchichange(fresh(init), fresh(coords), angle)
+        return "quatfit.qchichange", judge_rotation("quatfit.qchichange", [0.0, 0.0, 0.0], init, coords, out, angle=angle)
+    if kind == "set_dihedral":
+        tc = {"pts": case["pts"], "angle": case["angle"]}
+        names, before, after, old, stored = run_torsion_case(tc, util, Debump)
+        v = judge_rotation(
+            "Debump.set_dihedral_angle", before["B"], before["C"], [before[n] for n in names[3:]], [after[n] for n in names[3:]],
+            want=case["angle"], torsion_ref=before["A"], unmoved=[(n, before[n], after[n]) for n in "ABC"],
+        )
+        if v is None and angdiff(stored, case["angle"]) > TOL_TORS:
+            v = ("torsion-not-reproduced", f"residue.dihedrals holds {stored!r}, requested {case['angle']!r}")
+        return "Debump.set_dihedral_angle", v
+    if kind == "rotate_tetrahedral":
+        a1, a2 = SAtom("X1", case["a1"]), SAtom("X2", case["a2"])
+        hs = [SAtom(f"H{i}", h) for i, h in enumerate(case["hs"])]
+        a2.bonds = [a1] + hs
+        with np.errstate(all="ignore"):
+            Residue.rotate_tetrahedral(a1, a2, case["angle"])
+        v = judge_rotation(
+            "Residue.rotate_tetrahedral", case["a1"], case["a2"], case["hs"], [h.coords for h in hs], angle=case["angle"],
+            unmoved=[("X1", case["a1"], a1.coords), ("X2", case["a2"], a2.coords)],
+        )
+        return "Residue.rotate_tetrahedral", v
+    raise ValueError(kind)
+
+
+def gen_rotation_case(rng, util, routine):
+    R, _ = rand_rotation(rng)
+    T, scale = rand_translation(rng) if rng.random() < 0.25 else (np.zeros(3), 0.0)
+    b = boundary_angles(rng)
+    if routine == "qchichange":
+        init = list(map(float, rand_axis(rng) * rng.uniform(0.9, 1.6)))
+        coords = [list(map(float, np.array(init) * rng.uniform(0.5, 1.2) + rand_axis(rng) * rng.uniform(0.8, 1.6))) for _ in range(rng.choice([1, 3, 4]))]
+        return {"type": "rotation", "routine": routine, "init": init, "coords": coords, "angle": float(b), "rotation_angle": float(b)}
+    if routine == "rotate_tetrahedral":
+        bl = rng.uniform(1.0, 1.6)
+        hs = []
+        for i in range(3):
+            tilt, az = math.radians(rng.uniform(55, 80)), rng.uniform(0, 2 * math.pi)
+            hs.append(np.array([0, 0, bl]) + rng.uniform(0.9, 1.1) * np.array([math.sin(tilt) * math.cos(az), math.sin(tilt) * math.sin(az), math.cos(tilt)]))
+        return {"type": "rotation", "routine": routine, "a1": list(map(float, R @ np.zeros(3) + T)), "a2": list(map(float, R @ np.array([0, 0, bl]) + T)),
+                "hs": [list(map(float, R @ h + T)) for h in hs], "angle": float(b), "rotation_angle": float(b)}
+    # set_dihedral: the rotation handed to qchichange is requested - current, so the boundary value is put on
+    # the DIFFERENCE: requested = current + b, adjusted by a few ulps so that requested - current == b exactly
+    tc = gen_torsion_case(rng)
+    while len(tc["pts"]) < 7:
+        tc["pts"].append(list(map(float, np.array(tc["pts"][3]) + rand_axis(rng) * rng.uniform(0.9, 1.5))))
+    old = float(util.dihedral(*tc["pts"][:4]))
+    req = old + b
+    for _ in range(8):
+        if req - old == b or not math.isfinite(req):
+            break
+        req = np.nextafter(req, math.inf if (req - old) < b else -math.inf)
+    req = float(req)
+    return {"type": "rotation", "routine": "set_dihedral", "pts": tc["pts"], "angle": req, "rotation_angle": float(req - old), "current": old}
+
+
+def search_rotation_boundary(ctx, qf, util, ncases):
+    rng = ctx.rng
+    seen = set()
+    for k in range(ncases):
+        routine = ("qchichange", "set_dihedral", "rotate_tetrahedral")[k % 3]
+        try:
+            case = gen_rotation_case(rng, util, routine)
+        except Exception:  # noqa - degenerate random chain
+            continue
+        if routine == "set_dihedral":
+            p = [np.array(x) for x in case["pts"][:4]]
+            s1 = np.linalg.norm(np.cross(unit(p[0] - p[1]), unit(p[2] - p[1])))
+            s2 = np.linalg.norm(np.cross(unit(p[3] - p[2]), unit(p[1] - p[2])))
+            if min(s1, s2) < 5e-2 or not math.isfinite(case["current"]):
+                continue
+        cls = angle_class(case["rotation_angle"])
+        try:
+            site, v = run_rotation_case(case, qf, util)
+        except Exception as e:  # noqa
+            site, v = {"qchichange": "quatfit.qchichange", "set_dihedral": "Debump.set_dihedral_angle", "rotate_tetrahedral": "Residue.rotate_tetrahedral"}[routine], ("exception:" + type(e).__name__, str(e))
+        ra = case["rotation_angle"]
+        ctx.evaluated(("rotation", routine, cls, round(ra, 6) if abs(ra) < 1e5 else ra), abs(math.sin(math.radians(ra))) > 0.05)
+        ctx.count(f"rotation:{routine}:{cls}")
+        if v and (site, v[0], cls) not in seen:
+            seen.add((site, v[0], cls))
+            ctx.fail({"site": site, "condition": v[0], "angle-class": cls}, f"{site} by {ra!r} degrees: {v[1]}", case)
+
+
+def judge_corr_case(c, qf, util):
+    """A correspondence case that disagrees is re-judged by the model-independent oracle where one exists:
+    if the implementation's result violates the property, the case IS a failing input.
+    Returns (signature, message, replayable case) or None."""
+    what, d = c["what"].split(" ")[0], c["data"]
+    try:
+        if what == "qchichange":
+            case = {"type": "rotation", "routine": "qchichange", "init": d["init"], "coords": d["coords"], "angle": float(d["angle"]), "rotation_angle": float(d["angle"])}
+            site, v = run_rotation_case(case, qf, util)
+            if v:
+                return {"site": site, "condition": v[0], "angle-class": angle_class(d["angle"])}, f"{site} by {d['angle']!r} degrees: {v[1]}", case
+            return None
+        tol = 1e-9
+        if what == "center":
+            P = np.array(d["pts"], float)
+            cen, rel = qf.center(len(P), fresh(d["pts"]))
+            sc = max(1.0, float(np.abs(P).max()))
+            bad = np.abs(np.array(cen, float) - P.mean(axis=0)).max() > tol * sc or np.abs(np.array(rel, float) - (P - P.mean(axis=0))).max() > tol * sc
+        elif what == "translate":
+            P, cc = np.array(d["pts"], float), np.array(d["c"], float)
+            out = np.array(qf.translate(len(P), fresh(d["pts"]), fresh(d["c"]), d["mode"]), float)
+            m = {1: -1.0, 2: 1.0}.get(d["mode"], 0.0)
+            bad = np.abs(out - (P + m * cc)).max() > tol * max(1.0, float(np.abs(P).max()), float(np.abs(cc).max()))
+        elif what == "rotmol":
+            P, M = np.array(d["pts"], float), np.array(d["m"], float)
+            out = np.array(qf.rotmol(len(P), fresh(d["pts"]), fresh(d["m"])), float)
+            bad = np.abs(out - P @ M).max() > tol * max(1.0, float(np.abs(P).max()) * max(1.0, float(np.abs(M).max())))
+        elif what == "q2mat":
+            q = np.array(d["q"], float)
+            bad = np.abs(np.array(qf.q2mat(fresh(d["q"])), float) - q2mat_indep(q)).max() > tol
+        else:
+            return None
+    except Exception as e:  # noqa
+        return {"site": f"quatfit.{what}", "condition": "exception:" + type(e).__name__}, str(e), {"type": "corrjudge", "what": c["what"], "data": d}
+    if bad:
+        return {"site": f"quatfit.{what}", "condition": "differs-from-independent-formula"}, f"quatfit.{what} differs from the independent numpy formula by more than 1e-9", {"type": "corrjudge", "what": c["what"], "data": d}
+    return None
+
+
 # --------------------------------------------------------------------------
 
 
@@ -1425,6 +1654,9 @@ def run(ctx):
     ctx.cov["rule"] = (
         "purity: every tied quatfit entry x argument kinds (list, tuple, ndarray, list of ndarray, list of tuple) x aliasing "
         "(one object for two parameters, template reused over 4 placements), centroids away from the origin so an in-place shift is visible. "
+        "rotations at boundary angles: qchichange / Debump.set_dihedral_angle (boundary value put on requested - current, exact to the ulp) / "
+        "Residue.rotate_tetrahedral with angles 0, +-90, +-180, +-270, +-360, +-450, +-720 (+-1e-9), k*90 for |k| <= 12, +-5, +-60, +-120, +-179.99, "
+        "+-1e-300, +-(1e6+45), uniform(-720, 720); judged by torsion reproduced (mod 360), rigidity, handedness, unmoved atoms; counted per angle-class. "
         "fits: templates (bonded 3-point with 95-130 degree angle, random triples, near-collinear with sine 1e-3..1e-1, "
         "planar/non-planar quadruples, 5-6 points; half rounded to 3 decimals) x rotations (random axis/angle plus "
         "0, pi, pi-1e-6, pi-1e-9, 1e-6, +-120, 90 degrees) x translations (0..1e5 per axis); structure = numpy image; "
@@ -1462,6 +1694,7 @@ def run(ctx):
         res = None
         corr_broken = True
         ctx.broke("correspondence-broken", "model evaluation failed", str(e))
+    judged_seen = set()
     if res is not None:
         for c, r in zip(cases, res):
             ctx.cov["correspondence_cases"] += 1
@@ -1469,6 +1702,12 @@ def run(ctx):
             if why:
                 ctx.cov["correspondence_disagreements"] += 1
                 corr_broken = True
+                # a disagreeing case that the model-independent oracle can judge and that violates the
+                # property IS a failing input: report it with its own replay
+                judged = judge_corr_case(c, qf, util)
+                if judged and json_key(judged[0]) not in judged_seen:
+                    judged_seen.add(json_key(judged[0]))
+                    ctx.fail(judged[0], "correspondence case violates the property: " + judged[1], judged[2])
                 if len([b for b in ctx.broken if b["kind"] == "correspondence-broken"]) < 4:
                     ctx.broke("correspondence-broken", f"Model.Quatfit {c['term'].split(' ')[0]} vs pdb2pqr {c['what']}", why, {"type": "corr", "what": c["what"], "data": c["data"]})
         sweeps = [int(t[1:]) for r in res for t in r.split() if t.startswith("#")]
@@ -1495,6 +1734,7 @@ def run(ctx):
     ctx.cov["jacobi_exit_arbitrary_matrices"] = arb.summary()
     search_torsion(ctx, util, ntors)
     search_tetra(ctx, util, (4000 if ctx.thorough else 500) * boost)
+    search_rotation_boundary(ctx, qf, util, (15000 if ctx.thorough else 1800) * boost)
     try:
         search_real_residues(ctx, util, 4 if ctx.thorough else 2)
     except Exception as e:  # noqa - the real-structure path is a bonus; its failure to set up is reported, not fatal
@@ -1571,6 +1811,14 @@ def replay(ctx, data):
             d = ({"condition": "exception"}, str(e))
         print("replay:", ("FAILS: " + d[1]) if d else "passes")
         return 1 if d else 0
+    if t == "rotation":
+        site, v = run_rotation_case(case, qf, util)
+        print("replay:", ("FAILS: " + str(v)) if v else "passes", site, "rotation by", case.get("rotation_angle"), "degrees", angle_class(case.get("rotation_angle", 0.0)))
+        return 1 if v else 0
+    if t == "corrjudge":
+        j = judge_corr_case({"what": case["what"], "data": case["data"]}, qf, util)
+        print("replay:", ("FAILS: " + j[1]) if j else "passes", case["what"])
+        return 1 if j else 0
     if t == "purity":
         series = [tuple(x) for x in case["series"]] if case.get("series") else None
         bad = purity_run(qf, case["fn"], tuple(case["args"]), case["kind"], case.get("alias"), series)
